@@ -169,7 +169,10 @@ fn run_real<'i>(op: &Op, s: St<'i>, pr: &mut Probe) -> ParseResult<St<'i>> {
                     }
                 }
                 Err(a) => {
-                    if a.verif_snapshot().queue.len() > before.queue.len() {
+                    // only where the rule emits: its own start token must be gone ("emits a pair iff it
+                    // succeeds"). In atomic mode / look-ahead the rule owns no tokens; what a body that
+                    // switched the mode back left behind is for the enclosing sequence to undo.
+                    if emits && a.verif_snapshot().queue.len() > before.queue.len() {
                         pr.broken.push(format!("failed rule(r{id},..) left tokens behind"));
                     }
                 }
@@ -729,6 +732,41 @@ fn explore(cfg: &Cfg) -> (Stats, u64, u64) {
         ];
         for c in ctxs {
             work.push(("multibyte-primitives".into(), c));
+        }
+    }
+    // mode switches: a rule emitting tokens under a nested atomicity / look-ahead switch, then a
+    // failure absorbed at every level (8-10 nodes, out of reach of the size-ordered slice)
+    {
+        let id = |x: Op| x;
+        let outers: Vec<Box<dyn Fn(Op) -> Op>> = vec![
+            Box::new(id), Box::new(|x| Op::Atomic(0, Box::new(x))), Box::new(|x| Op::Atomic(1, Box::new(x))), Box::new(|x| Op::Atomic(2, Box::new(x))),
+            Box::new(|x| Op::Look(true, Box::new(x))), Box::new(|x| Op::Look(false, Box::new(x))),
+        ];
+        let wraps: Vec<Box<dyn Fn(Op) -> Op>> = vec![
+            Box::new(id), Box::new(|x| Op::Seq(Box::new(x))), Box::new(|x| Op::Restore(Box::new(x))), Box::new(|x| Op::Look(true, Box::new(x))), Box::new(|x| Op::Look(false, Box::new(x))),
+            Box::new(|x| Op::Rule(2, Box::new(x))), Box::new(|x| Op::Push(Box::new(x))),
+        ];
+        let ctxs: Vec<Box<dyn Fn(Op) -> Op>> = vec![
+            Box::new(id), Box::new(|x| Op::Opt(Box::new(x))), Box::new(|x| Op::Rep(Box::new(x))), Box::new(|x| Op::OrElse(Box::new(x), Box::new(Op::Str("a")))),
+        ];
+        let inners: Vec<Box<dyn Fn(Op) -> Op>> = vec![
+            Box::new(id), Box::new(|x| Op::Atomic(0, Box::new(x))), Box::new(|x| Op::Atomic(1, Box::new(x))), Box::new(|x| Op::Atomic(2, Box::new(x))),
+        ];
+        for o in &outers {
+            for w in &wraps {
+                for c in &ctxs {
+                    for i in &inners {
+                        for leaf in [Op::Str("a"), Op::Skip(1)] {
+                            for fail in [Op::Str("b"), Op::Eoi, Op::Str("a")] {
+                                for tail in [Op::Rule(2, Box::new(Op::Skip(1))), Op::Eoi] {
+                                    let body = Op::AndThen(Box::new(i(Op::Rule(1, Box::new(leaf.clone())))), Box::new(fail.clone()));
+                                    work.push(("mode-switches".into(), o(Op::AndThen(Box::new(c(w(body))), Box::new(tail)))));
+                                }
+                            }
+                        }
+                    }
+                }
+            }
         }
     }
     // peek slices on stacks of depth 0..3
